@@ -27,6 +27,7 @@ use crate::binary::{
     calculate_shl,
     fast_ceildiv,
     fast_log2,
+    significant_bits,
     truncate_and_round,
     write_float_negative_exponent,
     write_float_positive_exponent,
@@ -84,6 +85,10 @@ where
     let mantissa = float.mantissa();
     let radix = format.mantissa_radix();
     let (mantissa, mantissa_bits) = truncate_and_round(mantissa, radix, options);
+    // The truncated mantissa was shifted right by the number of bits dropped:
+    // restore its scale, since the writers align the digits using the exponent
+    // of the **original** mantissa.
+    let mantissa = mantissa << (mantissa_bits as i32 - significant_bits(mantissa) as i32);
 
     // See if we should use an exponent if the number was represented
     // in scientific notation, AKA, `I.FFFF^EEE`. If the exponent is above
